@@ -25,7 +25,7 @@
 EXTENDS DER
 
 CONSTANTS KINDS, LEN_IDS, INT_FULL, INT_MAX, INT_LONG, OID_FULL, OID_MAX, OID_LONG, BITS_FULL, BITS_MAX,
-          BOOL_FULL, BOOL_MAX, LEN_FULL, LEN_MAX, TAG_FULL, TAG_MAX, TIMEMENU
+          BOOL_FULL, BOOL_MAX, LEN_FULL, LEN_MAX, LEN_SMALL, TAG_FULL, TAG_MAX, TIMEMENU
 
 A14  == {0, 1, 39, 40, 79, 80, 127, 128, 129, 191, 192, 254, 255, 31}
 Full == 0..255
@@ -95,13 +95,14 @@ Init == /\ kind \in KINDS
 
 \* length octets: all single octets; long forms 0x80+k followed by k octets: full
 \* alphabet when the whole header (1 + k octets) is <= LEN_FULL long, else A14 while
-\* <= LEN_MAX; forms that cannot be completed within LEN_MAX get two octets from a
-\* small set; every proper prefix is a state (and a truncated case) too
+\* <= LEN_MAX, the four octets {00, 01, 80, FF} while <= LEN_SMALL; longer forms get two
+\* octets from that set; every proper prefix is a state (and a truncated case) too
 LenNext ==
   IF c = <<>> THEN Full
   ELSE IF c[1] <= 128 \/ Len(c) >= c[1] - 128 + 1 THEN {}
   ELSE IF c[1] - 128 + 1 <= LEN_FULL THEN Full
   ELSE IF c[1] - 128 + 1 <= LEN_MAX THEN (IF InA14(Tail(c)) THEN A14 ELSE {})
+  ELSE IF c[1] - 128 + 1 <= LEN_SMALL THEN {0, 1, 128, 255}
   ELSE IF Len(c) < 3 THEN {0, 1, 128, 255} ELSE {}
 
 \* identifier octets: all single octets; high-tag-number form continued with the
